@@ -512,6 +512,10 @@ def o_positions(case, lines):
                         return "Error::pos() = %d:%d, but %s is %s:%s (%s)" % (row, col, what, g[1], g[2], f[1])
                     if g[1] == "-" and tag == "EV" and (row, col) != (1, 1):
                         return "Error::pos() = %d:%d for the position-less variant %s (documented: 1:1)" % (row, col, f[1])
+            if (case.meta or {}).get("expect_err_at") is not None and f[1] == "UnknownToken":
+                er, ec = ref_text_pos(data, case.meta["expect_err_at"])
+                if (row, col) != (er, ec):
+                    return "%s reported at %d:%d, the offending construct is at %d:%d" % (f[1], row, col, er, ec)
             ls = data.split(b"\n")
             if not (1 <= row <= len(ls)):
                 return "error row %d outside 1..%d" % (row, len(ls))
